@@ -288,5 +288,41 @@ def cases(draw):
     return dict(opts=o, track=track)
 
 
+# ------------------------------------------------------------------ rows follow the bunches: permuting the currents permutes the rows
+def run_permute(case):
+    wd = cli.scratch("c10p")
+    o = dict(case["opts"])
+    cur = case["currents"]
+    H = []
+    for i, pat in enumerate((cur, cur[::-1])):
+        r = cli.run(["-c", "/dev/null", "-o", "r%d.h5" % i] + cli.optargs(dict(o, BunchCurrent=pat)), wd)
+        if r.rc != 0 or "Finished." not in r.out:
+            return fail(True, ["permute"], "run failed: %s %s" % (r.out[-300:], r.err[-300:]), "permute:runfail")
+        H.append(cli.H5(os.path.join(wd, "r%d.h5" % i)))
+    nb = len(cur)
+    for ds in ["/BunchPopulation/data", "/BunchProfile/data", "/EnergyProfile/data", "/BunchLength/data", "/BunchPosition/data",
+               "/EnergySpread/data", "/EnergyAverage/data", "/PhaseSpace/data", "/CSR/Intensity/data", "/CSR/Spectrum/data"]:
+        a, b = H[0][ds], H[1][ds]
+        for k in range(nb):
+            if (gen.bits(a[:, k]) != gen.bits(b[:, nb - 1 - k])).any():
+                return fail(True, ["permute"], "%s: row %d of the run with currents %s is not row %d of the run with the currents reversed (no impedance: bunches are independent)" %
+                            (ds, k, cur, nb - 1 - k), "permute:%s" % ds)
+    return Outcome(True, True, ["permute", "nb%d" % nb])
+
+
+@st.composite
+def permute_cases(draw):
+    o = draw(cfggen.base_config(nmin=16, nmax=40, min_laststep=3, max_laststep=30, multibunch=False, wake=("none",)))
+    o.pop("padding", None)
+    o["RoundPadding"] = True
+    o["outstep"] = draw(st.sampled_from([1, 2, 5]))
+    o["SavePhaseSpace"] = draw(st.sampled_from([1, 2]))
+    nb = draw(st.integers(2, 3))
+    cur = draw(st.lists(st.floats(2e-4, 3e-3).map(gen.f32), min_size=nb, max_size=nb, unique=True))
+    o["alpha0"] = gen.f32(cfggen.alpha0_for_spacing(draw(st.floats(1.1, 2.0)), dict(o, BunchCurrent=cur)))
+    return dict(opts=o, currents=cur)
+
+
 def subs(tier):
-    return [Sub("file", cases(), run_case, quick=1280, thorough=12000, needs=("rel", "h5x", "shim"), shrink_budget=60)]
+    return [Sub("file", cases(), run_case, quick=1280, thorough=12000, needs=("rel", "h5x", "shim"), shrink_budget=60),
+            Sub("permute", permute_cases(), run_permute, quick=64, thorough=600, needs=("rel", "h5x", "shim"), shrink_budget=16)]
